@@ -94,6 +94,7 @@ type c20Odd struct {
 	Store string
 	Proj  string
 	Top   string // top-level text
+	Alt   string // a second version of the Shop members (the other side of a delta): ALT in command lines
 }
 
 var c20Odds = []c20Odd{
@@ -148,6 +149,11 @@ var c20Odds = []c20Odd{
 	{Name: "hidden-and-human", Shop: "    Odd [~hidden]:\n        Human <- Act\n", Top: "Human [~human]:\n    Act:\n        Shop <- Odd\n"},
 	{Name: "app-name-with-escapes", Top: "Odd%20App :: Sub:\n    Ep%20One:\n        Shop <- Refresh\n    !type T%2EU:\n        f <: int\n"},
 	{Name: "endpoint-name-spaces", Shop: "    Odd thing with spaces:\n        Store <- Load\n"},
+	{Name: "kind-type-vs-table", Shop: "    !table Swap:\n        id <: int [~pk]\n        v <: string\n", Alt: "    !type Swap:\n        id <: int\n        v <: string\n"},
+	{Name: "kind-enum-vs-table", Shop: "    !table Swap:\n        id <: int [~pk]\n", Alt: "    !enum Swap:\n        A: 1\n        B: 2\n"},
+	{Name: "kind-alias-vs-table", Shop: "    !table Swap:\n        id <: int [~pk]\n", Alt: "    !alias Swap:\n        string\n"},
+	{Name: "kind-union-vs-table", Shop: "    !table Swap:\n        id <: int [~pk]\n", Alt: "    !union Swap:\n        int\n        string\n"},
+	{Name: "kind-table-referenced-vs-type", Shop: "    !table Swap:\n        id <: int [~pk]\n    !table User:\n        uid <: int [~pk]\n        s <: Swap.id\n", Alt: "    !type Swap:\n        id <: int\n    !table User:\n        uid <: int [~pk]\n"},
 	{Name: "dotted-type-names", Shop: "    !type Outer%2EInner:\n        f <: int\n    !type Outer:\n        g <: Outer%2EInner\n    !type Ref:\n        h <: Outer.Inner\n"},
 }
 
@@ -201,6 +207,8 @@ var c20Cmds = [][]string{
 	{"generate-db-scripts-delta", "-o", "dd1", "-a", "Shop", "-d", "postgres", "BASE", "MODEL"},
 	{"generate-db-scripts-delta", "-o", "dd2", "-a", "Shop", "-d", "postgres", "MODEL", "BASE"},
 	{"generate-db-scripts-delta", "-o", "dd3", "-a", "Shop", "-d", "postgres", "MODEL", "MODEL"},
+	{"generate-db-scripts-delta", "-o", "dd4", "-a", "Shop", "-d", "postgres", "ALT", "MODEL"},
+	{"generate-db-scripts-delta", "-o", "dd5", "-a", "Shop", "-d", "postgres", "MODEL", "ALT"},
 }
 
 var c20SlowCmds = [][]string{
@@ -222,6 +230,9 @@ func (c20) Bounds(tier string) map[string]interface{} {
 func (c20) Cases(tier string, emit func(string, interface{})) {
 	for i := range c20Odds {
 		for _, cmd := range c20Cmds {
+			if c20Odds[i].Alt == "" && (cmd[len(cmd)-1] == "ALT" || cmd[len(cmd)-2] == "ALT") {
+				continue // no second version: the delta against BASE covers it
+			}
 			emit(cmd[0], c20Case{Odds: []int{i}, Cmd: cmd})
 		}
 		if tier == "thorough" {
@@ -237,7 +248,7 @@ func (c20) Cases(tier string, emit func(string, interface{})) {
 					continue // both define the same member names
 				}
 				for _, cmd := range c20Cmds {
-					if cmd[0] == "pb" {
+					if cmd[0] == "pb" || cmd[len(cmd)-1] == "ALT" || cmd[len(cmd)-2] == "ALT" {
 						continue
 					}
 					emit("pair:"+cmd[0], c20Case{Odds: []int{i, j}, Cmd: cmd})
@@ -295,6 +306,14 @@ func (c20) Run(c core.Case) core.Outcome {
 		}
 		_ = os.WriteFile(filepath.Join(dir, "m.sysl"), []byte(model), 0o644)
 		_ = os.WriteFile(filepath.Join(dir, "base.sysl"), []byte(c20Model(c20Odds[0])), 0o644)
+		var alts []c20Odd
+		for _, od := range odds {
+			if od.Alt != "" {
+				od.Shop = od.Alt
+			}
+			alts = append(alts, od)
+		}
+		_ = os.WriteFile(filepath.Join(dir, "alt.sysl"), []byte(c20Model(alts...)), 0o644)
 	}
 	args := []string{"--root", "."}
 	for _, a := range cs.Cmd {
@@ -303,6 +322,8 @@ func (c20) Run(c core.Case) core.Outcome {
 			a = "m.sysl"
 		case "BASE":
 			a = "base.sysl"
+		case "ALT":
+			a = "alt.sysl"
 		}
 		args = append(args, a)
 	}
